@@ -1040,9 +1040,46 @@ pub fn part_evalwide(out: &mut Out, o: &Opts) {
     }
 }
 
+/// language-level quantifiers (C04): every variable list of length <= 3 over four names (order, repetition,
+/// names the body does not mention) x exists/forall x bodies, also inside fixed points and under an ordering
+pub fn part_evalq(out: &mut Out, _o: &Opts) {
+    let names = ["a", "b", "c", "d"];
+    let mut lists: Vec<Vec<&str>> = vec![vec![]];
+    let mut frontier: Vec<Vec<&str>> = vec![vec![]];
+    for _ in 0..3 {
+        let mut next = vec![];
+        for l in &frontier {
+            for n in names {
+                let mut m = l.clone();
+                m.push(n);
+                next.push(m);
+            }
+        }
+        lists.extend(next.iter().cloned());
+        frontier = next;
+    }
+    let bodies = ["a & b & c", "a | b | c", "(a & b) | (c & -a)", "a ^ c", "[a, b, c] = 2", "if b then a else c", "a & d", "true", "(a & b) | exists a # a & c"];
+    for l in &lists {
+        let vs = l.join(", ");
+        for q in ["exists", "forall"] {
+            for (i, b) in bodies.iter().enumerate() {
+                // the body first (ids by first appearance in the body), then a variant where the list comes first
+                emit_eval(out, &format!("({b}) & ({q} {vs} # {b})"), &[]);
+                if i % 3 == 0 {
+                    emit_eval(out, &format!("{q} {vs} # {b}"), &[]);
+                    emit_eval(out, &format!("lfp x # ({b}) | ({q} {vs} # x)"), &[]);
+                    emit_eval(out, &format!("gfp x # ({b}) & ({q} {vs} # (x | a))"), &[]);
+                    emit_eval(out, &format!("{q} {vs} # {b}"), &[("c".to_string(), 0), ("a".to_string(), 3), ("d".to_string(), 4)]);
+                }
+            }
+        }
+    }
+}
+
 pub fn main(out: &mut Out, o: &Opts) {
     for p in o.parts.clone() {
         match p.as_str() {
+            "evalq" => part_evalq(out, o),
             "evalwide" => part_evalwide(out, o),
             "evalord" => part_evalord(out, o),
             "tok" => part_tok(out, o),
